@@ -40,7 +40,7 @@ REQUIRED_MONITORS = ["F-matches-own-geometry", "DF-matches-own-geometry", "invF-
                      "facetbasis-normals-dx"]
 REQUIRED_REACH = ["per-cell-layout", "tind-none", "tind-permuted", "tind-repeated", "curved-mesh", "mirrored-mesh",
                   "interior-facets", "newton-inverse-nontrivial", "affine-flag-flipped", "many-points-per-cell", "same-points-other-subset",
-                  "mesh-in-small-units"]
+                  "mesh-in-small-units", "empty-subset", "closed-cell-points"]
 
 
 class OwnGeom:
@@ -141,6 +141,47 @@ def cell_maps(ctx, k, kind):
                 ctx.reached("newton-inverse-nontrivial")
             if unequal:
                 ctx.nontrivial(mname, cname, "cell-maps", "percell" if percell else "shared", sname, geom)
+    # the empty subset, a single cell with a single point, and points of the closed reference cell (vertices, facet
+    # barycentres, centroid: where the clipped Newton inverse starts from or ends at)
+    empty = np.array([], dtype=np.int32)
+    X3 = GEO.random_ref_points(rng, kind, 3)
+    tage = dict(mesh=cname, mapping=mname, geom=geom)
+    try:
+        shapes = {}
+        for meth in ("F", "DF", "invDF", "detDF"):
+            shapes[meth] = np.asarray(getattr(mapping, meth)(X3, empty)).shape
+        x0 = mapping.F(X3, empty)
+        shapes["invF"] = np.asarray(mapping.invF(x0, empty)).shape
+        ok = all(0 in sh for sh in shapes.values())
+        ctx.check("subset-spellings-agree", ok, mech=f"empty-subset-shape:{mname}", shapes=str(shapes), **tage)
+    except Exception as e:
+        ctx.check("subset-spellings-agree", False, mech=f"empty-subset-raises:{mname}", error=repr(e)[:200], **tage)
+    if kind not in ("line", "wedge"):
+        import skfem
+        from .c02 import P1ELEM
+        try:
+            fbe = skfem.FacetBasis(mesh, getattr(skfem, P1ELEM[kind])(), facets=empty)
+            ctx.check("subset-spellings-agree", fbe.dx.shape[0] == 0, mech=f"empty-facet-basis-shape:{mname}", shape=fbe.dx.shape, **tage)
+        except Exception as e:
+            ctx.check("subset-spellings-agree", False, mech=f"empty-facet-basis-raises:{mname}", error=repr(e)[:200], **tage)
+    ctx.reached("empty-subset")
+    c1 = np.array([int(rng.integers(nt))], dtype=np.int64)
+    RV = GEO.ref_vertices(kind)
+    Xc = np.hstack([RV, RV.mean(axis=1, keepdims=True)] +
+                   [RV[:, [i, j]].mean(axis=1, keepdims=True) for i in range(RV.shape[1]) for j in range(i + 1, RV.shape[1])][:6])
+    for Xq in (Xc, GEO.random_ref_points(rng, kind, 1)):
+        xq = mapping.F(Xq, c1)
+        ctx.close("F-matches-own-geometry", xq, own.F(Xq, c1), rtol=1e-12, scale=float(np.abs(own.F(Xq, c1)).max()) + 1e-300,
+                  mech=f"F-closed-cell-points:{mname}:{kind}", **tage)
+        try:
+            Xb = mapping.invF(xq, c1)
+            ctx.close("invF-F-identity", Xb, np.broadcast_to(Xq[:, None, :], xq.shape), rtol=1e-8, scale=1.0,
+                      mech=f"invF-closed-cell-points:{mname}:{kind}", npts=int(Xq.shape[1]), **tage)
+        except Exception as e:
+            if "converge" not in str(e):
+                raise
+            ctx.check("invF-F-identity", False, mech=f"newton-inverse-does-not-converge-at-closed-cell-points:{mname}", error=str(e), **tage)
+    ctx.reached("closed-cell-points")
     # the same reference points with two different cell subsets of equal length, one after the other on the same
     # mapping object (what two bases on different subdomains of one mesh do)
     if nt >= 4:
